@@ -1,4 +1,5 @@
 import Sebuf.Route
+import Sebuf.Gen.PathParams
 import Sebuf.Lemmas.PropsC03
 import Sebuf.Lemmas.PropsC18
 /-!
@@ -177,5 +178,24 @@ theorem required_flags_agree (m : MethodIn) :
 example :
     let m : MethodIn := { mk "S" "Find" "Find" "p" "/v1" true "/find" 1 ["tenant", "limit"] with queryRequired := ["tenant".toList] }
     (route .openapi m).queryRequired = ["tenant".toList] ∧ (route .openapi m).queryNames = ["tenant".toList, "limit".toList] := by decide
+
+/-- **how every generator finds the variables of a path template**, regenerated from `annotations.ExtractPathParams`:
+all matches (`limit = -1`) of `\{([^}]+)\}`, group 1 of each — which is what the scanner `extractPathParams`
+transcribes (leftmost, non-overlapping; a `{` opens a candidate, the next `}` closes it, an empty candidate is no match). -/
+theorem path_param_extraction_transcribed :
+    Gen.PathParams.regex = "\\{([^}]+)\\}" ∧ Gen.PathParams.method = "FindAllStringSubmatch" ∧ Gen.PathParams.limit = "-1" ∧
+    Gen.PathParams.keptSubmatch = "1" ∧ Gen.PathParams.loops = ["range matches"] := by decide
+
+/-- the scanner on the templates a hand-written replacement gets wrong: variables that share their segment with
+literal text, two variables in one segment, stray / doubled / nested braces, an unclosed or empty candidate. -/
+example :
+    extractPathParams "/users/{user_id}:archive".toList = ["user_id".toList] ∧
+    extractPathParams "/compare/{base}...{head}".toList = ["base".toList, "head".toList] ∧
+    extractPathParams "/v{version}/users".toList = ["version".toList] ∧
+    extractPathParams "/archive}/{user_id}/{post_id}".toList = ["user_id".toList, "post_id".toList] ∧
+    extractPathParams "/users/{user_id}}/posts/{post_id}".toList = ["user_id".toList, "post_id".toList] ∧
+    extractPathParams "/users/{{user_id}}/posts/{{post_id}}".toList = ["{user_id".toList, "{post_id".toList] ∧
+    extractPathParams "/users/{user_id:[0-9]{4}}/posts/{post_id}".toList = ["user_id:[0-9]{4".toList, "post_id".toList] ∧
+    extractPathParams "/users/{user_id".toList = [] ∧ extractPathParams "/users/{}/x/{post_id}".toList = ["post_id".toList] := by decide
 
 end Sebuf.C03
